@@ -96,7 +96,21 @@ def inject_stored_zeros(path, r):
 
 def serialisations(r, native):
     doc = json.loads(native)
+    # the same table with its sparse entries listed in another order, and
+    # with the top-level fields in another order (JSON prescribes neither)
+    colmajor = dict(doc)
+    shuffled = dict(doc)
+    if doc.get('matrix_type') == 'sparse':
+        colmajor['data'] = sorted(doc['data'], key=lambda e: (e[1], e[0]))
+        sh = list(doc['data'])
+        r.shuffle(sh)
+        shuffled['data'] = sh
+    items = list(doc.items())
+    r.shuffle(items)
     return {'native': native,
+            'entries-column-major': json.dumps(colmajor),
+            'entries-shuffled': json.dumps(shuffled, indent=1),
+            'fields-reordered': json.dumps(dict(items)),
             'default': json.dumps(doc),
             'compact': json.dumps(doc, separators=(',', ':')),
             'indent1': json.dumps(doc, indent=1),
@@ -272,9 +286,18 @@ def run_case(ctx, index):
                         res = biom.Table.from_json(doc)
                         _cmp(res, filt, 'C14/cli-json-subset/' + nm, desc)
                         ctx.count('cli_json')
-                    ref = outs['native']
+                    def canon(d):
+                        # the order in which the sparse entries (and the
+                        # fields) are listed is not content
+                        d = dict(d)
+                        if isinstance(d.get('data'), list) and \
+                                d.get('matrix_type') == 'sparse':
+                            d['data'] = sorted(d['data'],
+                                               key=lambda e: (e[0], e[1]))
+                        return d
+                    ref = canon(outs['native'])
                     for nm, doc in outs.items():
-                        if doc != ref:
+                        if canon(doc) != ref:
                             raise Violation('C14/cli-json-serialisation-'
                                             'dependent', 'output for %s differs '
                                             'from the native one; case=%r' %
